@@ -13,6 +13,15 @@ int32_t f_w_read_dimacs(char *fp, char *g);
 #ifndef EDGES
 #define EDGES 1
 #endif
+#ifndef COMMENTS
+#define COMMENTS 1   /* 0: no comment lines */
+#endif
+#ifndef WKINDS
+#define WKINDS 3     /* weight forms: 0 absent, 1 one digit, 2 two digits, 3 D.D */
+#endif
+#ifndef NMAX
+#define NMAX 3
+#endif
 static void put(char c) { file_data[file_len++] = c; }
 static char digit(int lo, int hi) { int d = nondet_int(); __CPROVER_assume(d >= lo && d <= hi); return (char) ('0' + d); }
 
@@ -21,15 +30,15 @@ void harness(void) {
     g.nv = 0; g.ne = 0; g.overflow = 0;
     file_len = 0; file_pos = 0;
     /* optional comment line */
-    int comment = nondet_int();
+    int comment = COMMENTS ? nondet_int() : 0;
     if (comment == 1) { put('c'); put(' '); put('x'); put('\n'); }
     else if (comment == 2) { put('#'); put('\n'); }
     /* problem line: p edge N M */
-    char N = digit(1, 3);
+    char N = digit(1, NMAX);
     put('p'); put(' '); put('e'); put('d'); put('g'); put('e'); put(' '); put(N); put(' '); put(digit(0, 2)); put('\n');
     int U[EDGES], V[EDGES], wkind[EDGES], w1[EDGES], w2[EDGES];
     for (int i = 0; i < EDGES; i++) {
-        int mid_comment = nondet_int();
+        int mid_comment = COMMENTS ? nondet_int() : 0;
         if (mid_comment == 1 && i > 0) { put('c'); put('\n'); }
         char kind = nondet_char();
         __CPROVER_assume(kind == 'e' || kind == 'a');
@@ -37,7 +46,7 @@ void harness(void) {
         U[i] = u - '0'; V[i] = v - '0';
         put(kind); put(' '); put(u); put(' '); put(v);
         wkind[i] = nondet_int();
-        __CPROVER_assume(wkind[i] >= 0 && wkind[i] <= 3);
+        __CPROVER_assume(wkind[i] >= 0 && wkind[i] <= WKINDS);
         w1[i] = 0; w2[i] = 0;
         if (wkind[i] >= 1) { char a = digit(0, 9); w1[i] = a - '0'; put(' '); put(a); }
         if (wkind[i] == 2) { char b = digit(0, 9); w2[i] = b - '0'; put(b); }                 /* two digits */
